@@ -108,6 +108,7 @@ def c11(tier, seed):
     _ggm_trace(out, "C11", seed + 1, 8 if thorough else 2, 256 if thorough else 80)
     _ggm_trace(out, "C11", seed + 8, 2 if thorough else 1, 256, order_offset=4)
     _protocol_stage(out, "C11", thorough)
+    _expect_spec_violation(out, "Neg_GGM", "Neg_GGM.cfg", "ForwardSecure for a puncture that only black-lists the input")
     return out
 
 
@@ -157,6 +158,7 @@ def c14(tier, seed):
     out.add_vh(run_vh(cmd), only={"C14"})
     _trace_check(out, "C14", "Trace_PPOPRF", "Trace_PPOPRF.cfg", tr, cmd, 12 if thorough else 4, "server history")
     out.add_vh(run_vh(["srv-alltags", "--seed", seed], timeout=3000), only={"C14"})
+    _expect_spec_violation(out, "Neg_PPOPRF", "Neg_PPOPRF.cfg", "NewLikeExisting for an import that keeps its own GGM key")
     return out
 
 
@@ -244,6 +246,7 @@ def c05(tier, seed):
                     seed, 6 if thorough else 4, stride=1 if thorough else 2)
     for k in range(6 if thorough else 1):
         out.add_vh(run_vh(["tamper-sweep", "--seed", seed + k, "--positions", "all"], timeout=3000), only={"C05"})
+    _expect_spec_violation(out, "Neg_Adss", "Neg_Adss.cfg", "authenticated recovery when the MAC does not cover the threshold")
     return out
 
 
@@ -592,4 +595,5 @@ def c18(tier, seed):
     out.add_vh(run_vh(["agg-replay", "--lines", lp, "--seed", seed, "--scale", 3, "--perms", 3], timeout=3000), only={"C18"})
     out.add_vh(run_vh(["agg-replay", "--lines", lp, "--seed", seed + 1, "--scale", 100 if thorough else 45,
                        "--perms", 4 if thorough else 3], timeout=3000), only={"C18"})
+    _expect_spec_violation(out, "Neg_Aggregator", "Neg_Aggregator.cfg", "OutputCorrect for a strict (>) threshold filter")
     return out
